@@ -18,10 +18,11 @@ Property predicates on the implementation's own transcript (kind 'pred'):
   stream     (C06) every read delivers the slice of the sequential reference read at its position
   seek       (C06) SEEK_CUR 0 reports the position, a seek to frame 0 rewinds, any other target fails with -1
 
-Known findings: KF-DWVW-TAIL-CALL (a decode call that starts after the decoder's look-ahead passed the end of the data
-returns 0) and KF-RAW-DWVW-FRAMES (RAW: the frame count at re-open is an estimate).  The model reproduces both bug for
-bug, so a failing predicate is waived only when the model shows the very same transcript on that job (no 'corr' problem)
-and the failure is a count shortfall / estimate - never when a delivered sample has the wrong value.
+Known finding: KF-RAW-DWVW-FRAMES (RAW has no header: the frame count at re-open is an estimate F >= N, theorem
+dwvw_raw_frames_partial).  Its class is exactly "RAW, the file re-opens with MORE frames than were written"; it is waived
+only when the model shows the very same transcript on that job (no 'corr' problem).  KF-DWVW-TAIL-CALL (a decode call that
+started after the look-ahead had passed the end of the data returned 0) is repaired: a count shortfall - fewer frames at
+re-open, a read that returns less than min (asked, frames - position) - is a violation on AIFF and RAW alike.
 """
 import collections, concurrent.futures
 
@@ -245,12 +246,24 @@ ANCHORS = [    # first jobs of every run: the two witnesses of KF-DWVW-TAIL-CALL
 ]
 
 
+# byte streams (RAW) whose real bits END IN ZEROS right where the decoder looks for a delta-width modifier: the zero run reaches 1..n bits into the
+# padding shifted in behind the file, which is exactly what the end test `bit_count < pad_bits` has to notice (a count of padding bits that is off
+# by one decodes one junk frame more or one frame fewer): (index into FORMATS, hex)
+TAIL_STREAMS = [(4, "ff80"), (4, "ff00"), (4, "fffe"), (4, "ffc0"), (4, "ff8000"), (5, "fff800"), (5, "fff000"), (5, "fffc00"), (5, "ffff80"), (5, "ff"), (5, "fff80000"),
+                (3, "fc"), (3, "f8"), (3, "ffe0"), (4, "7f80"), (5, "7ff800")]
+
+
 def make_jobs(ctx, njobs, prop):
     rng = ctx.rng
     quick = ctx.tier == "quick"
     budget = 1150 * njobs           # frames over all jobs (quick, 120 jobs: 138 000)
     spent = 0
     jobs = []
+    for i, (fi, hx) in enumerate(TAIL_STREAMS):
+        word, bits = FORMATS[fi]
+        j = Job("%s-b%d-tail-%d" % (fmt_name(word, bits), len(hx) // 2, i), word, bits, 8000, {}, "bytes", "bytes", [], read_plan(rng, "bytes", TYS[i % 4], 8 * len(hx)), 0)
+        j.store = hx
+        jobs.append(j)
     k = 0
     own = OWN_KIND[prop]
     while k < njobs:
@@ -424,7 +437,7 @@ def analyse(job, impl, model):
         return [Problem(job, "pred", "crash", "implementation died: " + died, max(0, min(len(impl), len(sl)) - 1))], info
     if len(impl) < len(sl):
         return [Problem(job, "pred", "crash", "transcript ends early (%d of %d lines)" % (len(impl), len(sl)), len(impl))], info
-    short = {KF_TAIL, KF_RAWF} if job.raw else {KF_TAIL}
+    short = ()           # since the repair of KF-DWVW-TAIL-CALL no count shortfall is a known finding
     mi = 0
     F, pos, ref, posbroken = 0, 0, None, False
     written = None
@@ -446,7 +459,7 @@ def analyse(job, impl, model):
                 if m.strip() != "frames=%d" % F:
                     probs.append(Problem(job, "corr", "frames", "frames after re-open", k, out, m))
                 if not job.stored() and F != job.n:
-                    kf = ({KF_RAWF} if job.raw else set()) | ({KF_TAIL} if F < job.n else set())
+                    kf = {KF_RAWF} if job.raw and F > job.n else set()          # the estimate of a headerless file: never below N
                     probs.append(Problem(job, "pred", "frames", "%d frames written, the file re-opens with %d frames" % (job.n, F), k, kf=kf, expect="frames=%d " % job.n))
         elif t[0] == "w":
             if S.normalise(out) != S.normalise(m):
@@ -578,7 +591,7 @@ def waiver(ctx, prop, p, corr_jobs):
     """the known-finding entry that covers this failing predicate, or None"""
     if p.cat not in WAIVABLE or not p.kf or p.job.name in corr_jobs:
         return None
-    for kid in (KF_TAIL, KF_RAWF):
+    for kid in (KF_RAWF,):
         if kid in p.kf:
             ent = next((e for e in ctx.known if e.get("id") == kid and e.get("status") == "known" and prop in e.get("properties", [])), None)
             if ent is not None:
